@@ -212,9 +212,16 @@ func (c *Cluster) checkGenerated(prop, path string, t uint32, parts []*Node, out
 		bad("participant-list", "client was told %d participants, %d took part", len(out.Participants), len(parts))
 	}
 	var refVV [][]byte
+	// The list the client was given is the list: it names the instances that took part (each under the port the initiator
+	// reaches it by), and every participant stores exactly it.
 	wantParts := map[uint64]string{}
+	for _, ep := range out.Participants {
+		wantParts[ep.GetId()] = fmt.Sprintf("%s:%d", ep.GetName(), ep.GetPort())
+	}
 	for _, p := range parts {
-		wantParts[p.ID] = fmt.Sprintf("%s:%d", p.Name, p.Port)
+		if w := wantParts[p.ID]; w != fmt.Sprintf("%s:%d", p.Name, p.Port) && w != fmt.Sprintf("%s:%d", p.Name, p.Port+forwardedPortOffset) {
+			bad("participant-list", "client was told %q for participant %d, which is %s:%d", w, p.ID, p.Name, p.Port)
+		}
 	}
 	for _, p := range parts {
 		a := p.storedAccount(path)
@@ -440,7 +447,13 @@ func runDKG(t *testing.T, rc *RunCtx) {
 	order := permute(rc, ids)
 	s := NewSched(rc, SchedCfg{StayBias: []float64{0, 0.5}[ch.Pick(2, 0)], MaxSteps: 20000})
 	defer s.Close()
-	c := NewCluster(t, rc, s, ClusterCfg{IDs: ids, Order: order, NdAccounts: 1})
+	// A third of the runs: the instances' peer tables differ (one lists another under a forwarded port).  What is stored
+	// with the account is the list the generation was run with, on every participant.
+	fwd := ch.Pick(3, 0) == 2
+	if fwd {
+		rc.Stats.Inc("runs_with_differing_peer_tables", 1)
+	}
+	c := NewCluster(t, rc, s, ClusterCfg{IDs: ids, Order: order, NdAccounts: 1, ForwardedPorts: fwd})
 	defer c.Close()
 	initiator := c.Nodes[ch.Pick(len(c.Nodes), 0)]
 	// The client signs with the new account on every participant the instant it has its answer.
